@@ -14,18 +14,18 @@ from . import core
 BASE_CFLAGS = ["-O0", "-fPIC", "-w", "-fno-strict-aliasing"]
 
 
-def _key(name, src, ext, directives, cflags, cplus):
+def _key(name, src, ext, directives, cflags, cplus, options=None):
     h = hashlib.sha256()
-    for part in (name, src, ext, repr(sorted((directives or {}).items())), repr(cflags), repr(cplus)):
+    for part in (name, src, ext, repr(sorted((directives or {}).items())), repr(cflags), repr(cplus), repr(sorted((options or {}).items()))):
         h.update(part.encode() + b"\0")
     return h.hexdigest()[:20]
 
 
-def build_ext(name, src, ext=".py", directives=None, cflags=(), cplus=False, ldflags=(), keep_c=False, timeout=600):
+def build_ext(name, src, ext=".py", directives=None, cflags=(), cplus=False, ldflags=(), keep_c=False, timeout=600, options=None, extra_files=None):
     """Cythonize src (module `name`) with the staged compiler in a subprocess, gcc it, return path to .so.
     Raises core.HarnessError with the tool output on failure."""
     stage, th = core.stage()
-    key = _key(name, src, ext, directives, tuple(cflags) + tuple(ldflags), cplus)
+    key = _key(name, src + repr(sorted((extra_files or {}).items())), ext, directives, tuple(cflags) + tuple(ldflags), cplus, options)
     d = os.path.join(core.workdir(), "build", th, key)
     so = os.path.join(d, name + ".so")
     if os.path.exists(so):
@@ -40,7 +40,17 @@ def build_ext(name, src, ext=".py", directives=None, cflags=(), cplus=False, ldf
     dargs = []
     for k, v in sorted((directives or {}).items()):
         dargs += ["-X", "%s=%s" % (k, v)]
-    cmd = [sys.executable, os.path.join(stage, "cython.py"), "-3", "--fast-fail"] + (["--cplus"] if cplus else []) + dargs + [srcp, "-o", cfile]
+    for fn, text in (extra_files or {}).items():
+        with open(os.path.join(tmp, fn), "w") as f:
+            f.write(text)
+    if options:
+        # module-level compiler options (Cython.Compiler.Options.<name>) have no command line switch
+        boot = "import sys; from Cython.Compiler import Options; " + "; ".join("Options.%s = %r" % kv for kv in sorted(options.items())) + \
+               "; from Cython.Compiler.Main import setuptools_main; sys.argv[0] = 'cython'; sys.exit(setuptools_main())"
+        launcher = [sys.executable, "-c", boot]
+    else:
+        launcher = [sys.executable, os.path.join(stage, "cython.py")]
+    cmd = launcher + ["-3", "--fast-fail"] + (["--cplus"] if cplus else []) + dargs + [srcp, "-o", cfile]
     env = core.child_env()
     r = subprocess.run(cmd, capture_output=True, text=True, env=env, cwd=tmp, timeout=timeout)
     if r.returncode != 0 or not os.path.exists(cfile):
